@@ -126,6 +126,16 @@ impl Property for C15Prop {
             members.rotate_left(rot % ms.len());
             let built = members.into_iter().reduce(|a, b| a | b).unwrap();
             instances.push(("built with |".into(), built));
+            // two unions joined with `|` (the join of two unions is one flat union)
+            if ms.len() >= 3 {
+                let mut members: Vec<Type> = ms.iter().map(Ty::to_real).collect();
+                members.rotate_left((rot + 1) % ms.len());
+                let cut = 1 + rot % (ms.len() - 1);
+                let right = members.split_off(cut);
+                let (l, r) = (members.into_iter().reduce(|a, b| a | b).unwrap(), right.into_iter().reduce(|a, b| a | b).unwrap());
+                instances.push(("built from two halves joined with |".into(), l.clone() | r.clone()));
+                instances.push(("built from two halves joined with | the other way round".into(), r | l));
+            }
         }
         stats.sample(8, || json!({"type": text, "instances": instances.len(), "printed": instances[0].1.to_string()}));
         for (how, t) in &instances {
